@@ -255,7 +255,7 @@ class IGen:
             if leaf and 0.24 <= k < 0.72 and r.random() > 0.06:
                 k = 0.9 if r.random() < 0.6 else 0.1
             if k < 0.16:
-                x = r.choice(PUBLIC_VARS + (["_p"] if top else []))
+                x = r.choice(PUBLIC_VARS + ["m1", "q1"] + (["_p"] if top else []))
                 e = ("c", self.word()) if r.random() < 0.8 else ("v", r.choice(["x", "y", "g", "nosuch"] if False else ["x", "y", "g"]))
                 stmts.append(["s", x, e])
                 will.add(x)
